@@ -40,8 +40,14 @@ META = {
             'coverage.spec_oracle_pairs), so a changed ordering rule becomes a concrete failing input even when all order laws still hold. Canonical classes: Debian without ":" in the '
             'upstream part; RubyGems numerals without leading zeros (outside it the code deviates from Ruby: 1.1.0.rc < 1.1.00.rc although Ruby reads 00 as 0 — reported as a defect '
             'candidate, not part of the canonical clause); the Debian/PyPI/NuGet/CRAN readers accept leading zeros because the rules compare values. '
-            'NOT DISCHARGED / not formalised: published rules of Packagist, Alpine and Maven; that the readers of the oracle invert render is proved for semver, Debian, RubyGems and CRAN '
-            '(C07_semver_specParse_render, C07_spec_readers) and checked on examples only for the NuGet, PyPI and Red Hat readers. '
+            'Alpine, SUFFIX RULE ONLY (C07_alpine_suffix_spec, Spec/Semantic/Alpine.lean, written from the documented list alpha < beta < pre < rc < (no suffix) < cvs < svn < git < hg < p, '
+            'number after the suffix breaks ties with a missing number = 0, sequences compared position by position with "no suffix" as the padding element): proved for every pair of versions '
+            'digits(.digits)*[a-z]?(_suffix[number])*(~hex)?(-rN)? that agree on digits (as written, leading zeros allowed), letter, hash and revision and differ in their suffix sequences only; the driver prints '
+            'the verdict for exactly such pairs (both read by ApkSpec.specParse, sameBase) and the oracle compares the implementation with it. How numeric components, letters and revisions of '
+            'different bases compare is NOT specified (the numeric-component rule stays outside because of the recorded finding C07/alpine-leading-zero-padding). This oracle is what reports the '
+            'padding-weight defect of fetchSuffix (1.0_cvs = 1.0 instead of >) as a failing pair; the model mirrors the repaired code (padding weight 4). '
+            'NOT DISCHARGED / not formalised: the remaining published rules of Alpine, and those of Packagist and Maven; that the readers of the oracle invert render is proved for semver, Debian, RubyGems and CRAN '
+            '(C07_semver_specParse_render, C07_spec_readers) and checked on examples only for the NuGet, PyPI, Red Hat and Alpine-suffix readers. '
             'KNOWN FINDINGS are filed narrowly: only a transitivity verdict, on a triple with a member outside the proved domain (driver flag kf) that ALSO has the recorded shape (Alpine: '
             'leading zero in a later component; Maven: a qualifier introduced by "."), and only when the implementation answers exactly as the model on that row; every other verdict on such a '
             'triple is reported as a violation (coverage.known_class_rows counts the filed rows). '
@@ -58,7 +64,7 @@ THEOREMS = ([P + 'C07_%s_total' % f for f in FAMS] + [P + 'C07_%s_refl' % f for 
             [P + 'C07_%s_trans' % f for f in ['semver', 'nuget', 'cran', 'debian', 'rubygems', 'redhat', 'pypi']] +
             [P + 'C07_packagist_trans_partial', P + 'C07_packagist_trans_fails', P + 'C07_alpine_trans_partial', P + 'C07_alpine_trans_fails',
              P + 'C07_maven_trans_partial', P + 'C07_maven_trans_fails', P + 'C07_all_total', P + 'C07_all_refl', P + 'C07_all_antisymm', P + 'C07_eco_total', P + 'C07_unsupported',
-             P + 'C07_semver_spec', P + 'C07_debian_spec', P + 'C07_pypi_spec', P + 'C07_rubygems_spec', P + 'C07_nuget_spec', P + 'C07_cran_spec', P + 'C07_redhat_spec', P + 'C07_spec_readers', P + 'C07_semver_hyphen_identifier', P + 'C07_semver_specParse_render', P + 'C07_fuel_adequate', P + 'C07_cran_nonnumeric', P + 'C07_packagist_long_number',
+             P + 'C07_semver_spec', P + 'C07_debian_spec', P + 'C07_pypi_spec', P + 'C07_rubygems_spec', P + 'C07_nuget_spec', P + 'C07_cran_spec', P + 'C07_redhat_spec', P + 'C07_alpine_suffix_spec', P + 'C07_spec_readers', P + 'C07_semver_hyphen_identifier', P + 'C07_semver_specParse_render', P + 'C07_fuel_adequate', P + 'C07_cran_nonnumeric', P + 'C07_packagist_long_number',
              P + 'C07_go_sites_in_range', P + 'C07_grammar_accepted', P + 'C07_preorder', P + 'C07_total_preorder_on', P + 'C07_rank_exists', P + 'C07_total_preorder_on_accepted', P + 'C07_maven_no_rank'] +
             [P + 'C07_%s_render_accepted' % f for f in ['semver', 'nuget', 'cran', 'debian', 'rubygems', 'redhat', 'pypi']])
 
@@ -66,7 +72,8 @@ ECO_FAM = {'npm': 'semver', 'crates.io': 'semver', 'Go': 'semver', 'Hex': 'semve
            'Debian': 'debian', 'Ubuntu': 'debian', 'RubyGems': 'rubygems', 'Red_Hat': 'redhat', 'Packagist': 'packagist', 'PyPI': 'pypi', 'Alpine': 'alpine', 'Maven': 'maven'}
 KEYS = ['r', 'rr', 'ra', 'rb', 'acc', 'ab', 'bc', 'ac', 'ba', 'cb', 'ca']
 FLIP = {'lt': 'gt', 'gt': 'lt', 'eq': 'eq'}
-RULES = {'semver': 'semver.org §11', 'debian': 'deb-version(7)', 'pypi': 'PEP 440', 'rubygems': 'Gem::Version', 'nuget': 'NuGet docs / SemVer 2', 'cran': 'R package_version', 'redhat': 'rpm-version(7) / rpmvercmp'}
+RULES = {'semver': 'semver.org §11', 'debian': 'deb-version(7)', 'pypi': 'PEP 440', 'rubygems': 'Gem::Version', 'nuget': 'NuGet docs / SemVer 2', 'cran': 'R package_version', 'redhat': 'rpm-version(7) / rpmvercmp',
+         'alpine': 'documented Alpine suffix order alpha<beta<pre<rc<(none)<cvs<svn<git<hg<p on versions that differ in their suffixes only'}
 KNOWN = {'alpine': 'C07/alpine-leading-zero-padding', 'maven': 'C07/maven-qualifier-cycle'}
 
 
